@@ -847,6 +847,9 @@ func c04LenPad(c *Ctx, write, sum *ssa.Function) {
 			}
 		}
 	})
+	if !zeroLoop && c04ZeroCount(pad) {
+		zeroLoop = true // a computed count: for every residue r of the length, r + count(r) = 56 (mod 64) and 0 <= count(r) < 64
+	}
 	if !zeroLoop {
 		// the zeros are produced in another way (a computed count, append(make(zeros)...)): decide the LENGTH of the
 		// padded tail instead — 9 to 72 bytes more than the unprocessed tail
@@ -941,6 +944,13 @@ func c04LenPad(c *Ctx, write, sum *ssa.Function) {
 			}
 		}
 	}
+	// the eight bytes appended by a counted loop: `for i := 0; i < 8; i++ { msg = append(msg, uint8(length >> (56-8*i))) }`
+	// — the lanes are enumerated from the counter's start, step and bound
+	if len(lanes) == 0 || !laneOK {
+		if ls, ok := c04LoopLanes(pad, lenField); ok {
+			lanes, laneOK = ls, true
+		}
+	}
 	c.Check(laneOK && fmt.Sprint(lanes) == fmt.Sprint(want), "K-C04-pad", fname(pad), "64-bit big-endian bit length", "",
 		fmt.Sprintf("the padding must end with the 8 bytes of the bit length, most significant first; byte lanes appended: %v", lanes), pad.Pos())
 	// (d) 0x80 first: the append of 0x80 dominates all other appends
@@ -1018,7 +1028,9 @@ func c04Stream(c *Ctx, write *ssa.Function) {
 	// canonIdx renders the low bound as an affine form over the atom quo(len(msg),64)
 	want2 := "slice(" + msg + ",mul(0x40,quo(len(" + msg + "),0x40)),_)"
 	want3 := "slice(" + msg + ",sub(len(" + msg + "),rem(len(" + msg + "),0x40)),_)"
-	c.Check(got == want1 || got == want2 || got == want3, rule, fname(write), "tail kept = msg[(len(msg)/64)*64:]", "msg = tail||p, remainder kept",
+	// the same low bound printed as an affine form: len(msg) - len(msg)%64
+	want4 := "slice(" + msg + ",-1*rem(len(" + msg + "),0x40)+len(" + msg + "),_)"
+	c.Check(got == want1 || got == want2 || got == want3 || got == want4, rule, fname(write), "tail kept = msg[(len(msg)/64)*64:]", "msg = tail||p, remainder kept",
 		"after Write the unprocessed tail must be exactly the bytes beyond the last full 64-byte block of tail||p; have "+got, tailStore.Pos())
 	// the compression call gets msg
 	okCall := false
@@ -1154,4 +1166,193 @@ func c04PadBound(c *Ctx, pf *ssa.Function) bool {
 		}
 	}
 	return n > 0
+}
+
+// c04LoopLanes: the byte lanes of the length field appended by a single counted loop, in iteration order
+func c04LoopLanes(pad *ssa.Function, lenField string) ([]int, bool) {
+	for _, h := range loopHeaders(pad) {
+		var ind induction
+		found := false
+		for _, p := range phisOf(h) {
+			if iv, ok := inductionOf(p); ok && iv.step != 0 {
+				if _, isInt := p.Type().Underlying().(*types.Basic); isInt {
+					ind, found = iv, true
+					break
+				}
+			}
+		}
+		if !found {
+			continue
+		}
+		hi, ok := loopBound(ind)
+		if !ok || ind.step <= 0 || (hi-ind.init+ind.step-1)/ind.step != 8 {
+			continue
+		}
+		blocks := loopBlocks(h)
+		var app *ssa.Call
+		n := 0
+		for b := range blocks {
+			for _, in := range b.Instrs {
+				call, ok := in.(*ssa.Call)
+				if !ok {
+					continue
+				}
+				if bi, ok := call.Call.Value.(*ssa.Builtin); ok && bi.Name() == "append" {
+					app = call
+					n++
+				}
+			}
+		}
+		if n != 1 || app == nil || len(app.Call.Args) != 2 {
+			continue
+		}
+		// the append runs on every iteration
+		for _, pr := range h.Preds {
+			if h.Dominates(pr) && !app.Block().Dominates(pr) {
+				return nil, false
+			}
+		}
+		v, ok := appendedValue(app.Call.Args[1])
+		if !ok {
+			continue
+		}
+		x := stripConvAll(v)
+		if bo, ok := x.(*ssa.BinOp); ok && bo.Op == token.AND {
+			if k, isK := constInt(bo.Y); isK && k == 0xff {
+				x = stripConvAll(bo.X)
+			}
+		}
+		sh, ok := x.(*ssa.BinOp)
+		if !ok || sh.Op != token.SHR {
+			continue
+		}
+		ld, ok := sh.X.(*ssa.UnOp)
+		if !ok {
+			continue
+		}
+		fa, ok := ld.X.(*ssa.FieldAddr)
+		if !ok || fieldName(fa.X.Type(), fa.Field) != lenField {
+			continue
+		}
+		amt := affineOf(stripConvAll(sh.Y))
+		if len(amt.coef) > 1 || (len(amt.coef) == 1 && amt.coef[ind.phi] == 0) {
+			continue
+		}
+		var lanes []int
+		for i := ind.init; i < hi; i += ind.step {
+			a := amt.k + amt.coef[ind.phi]*i
+			if a < 0 || a%8 != 0 || a > 56 {
+				return nil, false
+			}
+			lanes = append(lanes, int(a/8))
+		}
+		return lanes, true
+	}
+	return nil, false
+}
+
+// c04ZeroCount: the zero fill written as one append of make([]byte, count) with count a pure integer expression over
+// len(msg) % 64 of the buffer being extended. The expression is evaluated for each of the 64 residues (an abstract
+// domain of 64 values, no execution of repository code): r + count(r) must be 56 modulo 64 with 0 <= count(r) < 64.
+func c04ZeroCount(pad *ssa.Function) bool {
+	ok := false
+	instrsOf(pad, func(_ *ssa.BasicBlock, in ssa.Instruction) {
+		call, isCall := in.(*ssa.Call)
+		if !isCall || ok {
+			return
+		}
+		bi, isBi := call.Call.Value.(*ssa.Builtin)
+		if !isBi || bi.Name() != "append" || len(call.Call.Args) != 2 {
+			return
+		}
+		mk, isMk := call.Call.Args[1].(*ssa.MakeSlice)
+		if !isMk {
+			return
+		}
+		base := call.Call.Args[0]
+		// the residue node: len(base) % 64
+		var resNode ssa.Value
+		var find func(v ssa.Value, d int)
+		find = func(v ssa.Value, d int) {
+			if d > 12 || resNode != nil {
+				return
+			}
+			switch x := v.(type) {
+			case *ssa.BinOp:
+				if x.Op == token.REM {
+					if k, isK := constInt(x.Y); isK && k == 64 {
+						if lc, isL := x.X.(*ssa.Call); isL {
+							if b2, isB := lc.Call.Value.(*ssa.Builtin); isB && b2.Name() == "len" && lc.Call.Args[0] == base {
+								resNode = x
+								return
+							}
+						}
+					}
+				}
+				find(x.X, d+1)
+				find(x.Y, d+1)
+			case *ssa.Convert:
+				find(x.X, d+1)
+			}
+		}
+		find(mk.Len, 0)
+		if resNode == nil {
+			return
+		}
+		var eval func(v ssa.Value, r int64, d int) (int64, bool)
+		eval = func(v ssa.Value, r int64, d int) (int64, bool) {
+			if d > 16 {
+				return 0, false
+			}
+			if v == resNode {
+				return r, true
+			}
+			if k, isK := constInt(v); isK {
+				return k, true
+			}
+			switch x := v.(type) {
+			case *ssa.Convert:
+				if isIntType(x.X.Type()) && isIntType(x.Type()) {
+					return eval(x.X, r, d+1)
+				}
+			case *ssa.BinOp:
+				a, ok1 := eval(x.X, r, d+1)
+				b, ok2 := eval(x.Y, r, d+1)
+				if !ok1 || !ok2 {
+					return 0, false
+				}
+				switch x.Op {
+				case token.ADD:
+					return a + b, true
+				case token.SUB:
+					return a - b, true
+				case token.MUL:
+					return a * b, true
+				case token.REM:
+					if b != 0 {
+						return a % b, true
+					}
+				case token.QUO:
+					if b != 0 {
+						return a / b, true
+					}
+				case token.AND:
+					return a & b, true
+				}
+			}
+			return 0, false
+		}
+		all := true
+		for r := int64(0); r < 64; r++ {
+			z, okE := eval(mk.Len, r, 0)
+			if !okE || z < 0 || z >= 64 || (r+z)%64 != 56 {
+				all = false
+				break
+			}
+		}
+		if all {
+			ok = true
+		}
+	})
+	return ok
 }
